@@ -87,6 +87,12 @@ pub struct Actor {
     pub presence_enabled: bool,
     pub verification: Option<bool>,
     pub allow_localhost: bool,
+    /// authenticator builder: 0 = library default transports, 1..=6 = a configured list (3 = empty, 6 = with a repeated value)
+    #[serde(default)]
+    pub transports: u8,
+    /// authenticator AAGUID: 0 = sixteen 0xA5 bytes, 1 = all zero, n = sixteen bytes n
+    #[serde(default)]
+    pub aaguid: u8,
     pub ops: Vec<Op>,
 }
 
@@ -232,6 +238,9 @@ pub struct McSpec {
     pub up: bool,
     pub uv: bool,
     pub pin_auth: bool,
+    /// with pin_auth: send a zero-length pinAuth (the CTAP 2.0 authenticator-selection probe)
+    #[serde(default)]
+    pub pin_empty: bool,
     pub hmac_secret: Option<bool>,
     pub prf: Option<CtapPrf>,
     pub via_trait: bool,
@@ -249,6 +258,8 @@ pub struct GaSpec {
     pub up: bool,
     pub uv: bool,
     pub pin_auth: bool,
+    #[serde(default)]
+    pub pin_empty: bool,
     pub prf: Option<CtapPrf>,
     pub via_trait: bool,
 }
@@ -368,6 +379,8 @@ pub enum LinkFault {
     },
     /// replace the message entirely
     Replace(Vec<u8>),
+    /// replace `len` bytes at `at` (one whole encoded item) by other bytes (an item of another type or size)
+    ReplaceRange(u32, u32, Vec<u8>),
     /// replace the message by prefix + unit x times + suffix (large inputs without large scenarios)
     Repeat {
         prefix: Vec<u8>,
